@@ -762,4 +762,630 @@ theorem parse_loopT (cfg : ScanCfg R) (segs0 : List Seg) (S V : List Nat) (body 
   simp only [stAt] at hst0 htotal
   simp only [parse, hst0, bind, Except.bind, htotal, cleanup]
 
+/-! ### rendering -/
+
+section
+variable [RealLike R]
+
+/-- `getValue` of a loop variable `name[k1]…` whose loop item is `it` -/
+theorem getValue_loopvar (cx : RCtx R) (hg : cx.guardIndexRead = true) (st : RState)
+    (A post name : List Nat) (keys : List (List Nat))
+    (hc : cx.content = A ++ ((name ++ brk keys) ++ post))
+    (hne : name ≠ []) (hn : noB name) (hk : ∀ k ∈ keys, noB k) (lv : Nat) (it : LoopItem)
+    (hit : st.items[lv]? = some it) :
+    getValue cx st ⟨A.length, (name ++ brk keys).length, name.length, lv⟩ = .ok (follow it.value keys) := by
+  have hnl : 0 < name.length := List.length_pos_iff.mpr hne
+  have hia : itemAt st lv = .ok it := by simp [itemAt, hit]
+  cases keys with
+  | nil =>
+    simp only [brk, List.append_nil] at hc ⊢
+    have hlast : rd cx.content (A.length + name.length - 1) = .ok name[name.length - 1] := by
+      apply rd_some
+      rw [show A.length + name.length - 1 = A.length + (name.length - 1) by omega, hc]
+      exact get_at A name post _ (by omega)
+    have hne93 : (name[name.length - 1] == W1.variableIndexSuffix) = false := by
+      have := (hn _ (List.getElem_mem (show name.length - 1 < name.length by omega))).2
+      simp only [show W1.variableIndexSuffix = 93 by decide]; simpa using this
+    simp [getValue, hlast, hne93, hia, bind, Except.bind, pure, Except.pure, follow,
+      show name.length ≠ 0 by omega]
+  | cons k ks =>
+    obtain ⟨ini, hini⟩ := brk_last k ks
+    have hlen : (name ++ brk (k :: ks)).length = name.length + ini.length + 1 := by
+      rw [hini]; simp; omega
+    have hlast : rd cx.content (A.length + (name ++ brk (k :: ks)).length - 1) = .ok 93 := by
+      apply rd_some
+      rw [hlen, show A.length + (name.length + ini.length + 1) - 1 = (A ++ name).length + ini.length by simp; omega,
+        hc, hini]
+      have := get_after (A ++ name) ini 93 post
+      simpa [List.append_assoc] using this
+    have hb : brk (k :: ks) = 91 :: (k ++ 93 :: brk ks) := by simp [brk]
+    have hp := getValuePath_keys cx hg A.length (name ++ brk (k :: ks)).length ks k it.value
+      (A ++ name ++ [91]) post (name.length + 1) ((name ++ brk (k :: ks)).length + 2)
+      (by rw [hc, hb]; simp [List.append_assoc]) (by simp [Nat.add_assoc]) (by rw [hb]; simp; omega)
+      (hk k (List.mem_cons_self ..)) (fun x hx => hk x (List.mem_cons_of_mem _ hx))
+      (by have := brk_length (k :: ks); simp only [List.length_append, List.length_cons] at this ⊢; omega)
+    simp only [getValue, hlast, bind, Except.bind, pure, Except.pure,
+      show (name ++ brk (k :: ks)).length ≠ 0 by omega, ne_eq, not_false_eq_true, if_true,
+      show ((93 : Nat) == W1.variableIndexSuffix) = true by decide, Bool.not_true, Bool.false_eq_true, if_false,
+      show ¬ name.length = 0 by omega, hia, hp]
+
+theorem isPrefixOf_self_append : ∀ (V rest : List Nat), V.isPrefixOf (V ++ rest) = true := by
+  intro V
+  induction V with
+  | nil => intro rest; simp [List.isPrefixOf]
+  | cons v V' ih => intro rest; simp [List.isPrefixOf, ih]
+
+/-- paths of body variables: the documented shape, and a path that starts with the loop's value
+name IS the loop variable (its name part is the value name) -/
+def BodyPathOk (V p : List Nat) : Prop :=
+  ∃ name keys, p = name ++ brk keys ∧ name ≠ [] ∧ noB name ∧ (∀ k ∈ keys, noB k) ∧
+    (V.isPrefixOf p = true → name = V)
+
+theorem getValue_body (cx : RCtx R) (hg : cx.guardIndexRead = true) (st : RState)
+    (A post p : List Nat) (hc : cx.content = A ++ (p ++ post)) (V : List Nat) (lv : Nat) (x : Doc) (key : List Nat)
+    (hp : BodyPathOk V p) (hit : st.items[lv]? = some ⟨some x, key⟩) :
+    getValue cx st (bodyV V lv A.length p) = .ok (resolve cx.root [⟨V, x, key⟩] p).1 ∧
+    loopKeyText st (bodyV V lv A.length p) =
+      .ok (match (resolve cx.root [⟨V, x, key⟩] p).2 with
+        | some bd => if bd.key.length = 0 then none else some bd.key
+        | none => none) := by
+  obtain ⟨name, keys, rfl, hne, hn, hk, hpre⟩ := hp
+  have hsp := splitPath_ok name keys hn hk
+  by_cases hv : V.isPrefixOf (name ++ brk keys) = true
+  · have hnv := hpre hv
+    subst hnv
+    have hres : resolve cx.root [⟨name, x, key⟩] (name ++ brk keys) = (follow (some x) keys, some ⟨name, x, key⟩) := by
+      simp [resolve, hsp]
+    have hbv : bodyV name lv A.length (name ++ brk keys) = ⟨A.length, (name ++ brk keys).length, name.length, lv⟩ := by
+      simp [bodyV, hv, mkV]
+    rw [hbv, hres]
+    refine ⟨getValue_loopvar cx hg st A post name keys hc hne hn hk lv _ hit, ?_⟩
+    have hnl : name.length ≠ 0 := by
+      have := List.length_pos_iff.mpr hne; omega
+    simp [loopKeyText, hnl, itemAt, hit]
+  · have hnv : name ≠ V := by
+      intro h; subst h; exact hv (isPrefixOf_self_append name _)
+    have hres : resolve cx.root [⟨V, x, key⟩] (name ++ brk keys) = (follow (cx.root.getKey name) keys, none) := by
+      have : (V == name) = false := by simpa using fun h => hnv h.symm
+      simp [resolve, hsp, this]
+    have hbv : bodyV V lv A.length (name ++ brk keys) = ⟨A.length, (name ++ brk keys).length, 0, 0⟩ := by
+      simp [bodyV, hv, mkV]
+    rw [hbv, hres]
+    exact ⟨getValue_top cx hg st A post name keys hc hne hn hk, by simp [loopKeyText]⟩
+
+
+/-- what the document says a body segment prints under the bindings `sc` -/
+def expSegB (cx : RCtx R) (sc : List Binding) : Seg → List Nat
+  | .text s => s
+  | .var p =>
+    match (resolve cx.root sc p).1.bind (copyValue cx true) with
+    | some t => t
+    | none =>
+      match (resolve cx.root sc p).2 with
+      | some bd =>
+        if bd.key.isEmpty then Qentem.Escape.escapeCfg cx.autoEscape (printSeg (.var p))
+        else Qentem.Escape.escapeCfg cx.autoEscape bd.key
+      | none => Qentem.Escape.escapeCfg cx.autoEscape (printSeg (.var p))
+  | .raw p =>
+    match (resolve cx.root sc p).1.bind (copyValue cx false) with
+    | some t => t
+    | none => printSeg (.raw p)
+  | .math e =>
+    match (evalText (specOf cx) sc e).bind (numText (specOf cx)) with
+    | some t => t
+    | none => printSeg (.math e)
+
+def expSegsB (cx : RCtx R) (sc : List Binding) : List Seg → List Nat
+  | [] => []
+  | s :: r => expSegB cx sc s ++ expSegsB cx sc r
+
+theorem renderVariable_body (cx : RCtx R) (hg : cx.guardIndexRead = true) (st : RState)
+    (B txt p post : List Nat)
+    (hc : cx.content = B ++ (txt ++ (([123, 118, 97, 114, 58] ++ p ++ [125]) ++ post)))
+    (V : List Nat) (lv : Nat) (x : Doc) (key : List Nat) (hp : BodyPathOk V p)
+    (hit : st.items[lv]? = some ⟨some x, key⟩) :
+    renderVariable cx st (bodyV V lv ((B ++ txt).length + 5) p) B.length =
+      .ok (emit (emit st txt) (expSegB cx [⟨V, x, key⟩] (.var p)), (B ++ txt).length + 5 + p.length + 1) := by
+  have h5 : W1.variablePrefixLength = 5 := by decide
+  have h6 : W1.variableFullLength = 6 := by decide
+  have hsl : slice cx.content B.length (B ++ txt).length = .ok txt := by rw [hc]; exact slice_from B txt _
+  have hA : (B ++ txt).length + 5 = (B ++ txt ++ [123, 118, 97, 114, 58]).length := by simp [Nat.add_assoc]
+  have hgk := getValue_body cx hg (emit st txt) (B ++ txt ++ [123, 118, 97, 114, 58]) ([125] ++ post) p
+    (by rw [hc]; simp [List.append_assoc]) V lv x key hp (by simpa [emit] using hit)
+  rw [← hA] at hgk
+  obtain ⟨hgv, hkt⟩ := hgk
+  have hsrc : slice cx.content (B ++ txt).length ((B ++ txt).length + (p.length + 6)) =
+      .ok (printSeg (.var p)) := by
+    have := slice_mid (B ++ txt) ([123, 118, 97, 114, 58] ++ p ++ [125]) post
+    rw [hc]
+    simpa [printSeg, List.append_assoc, Nat.add_assoc] using this
+  have hoff : (bodyV V lv ((B ++ txt).length + 5) p).off = (B ++ txt).length + 5 := by
+    simp only [bodyV, mkV]; split <;> rfl
+  have hlen : (bodyV V lv ((B ++ txt).length + 5) p).len = p.length := by
+    simp only [bodyV, mkV]; split <;> rfl
+  simp only [renderVariable, subChk, h5, h6, hoff, hlen, show 5 ≤ (B ++ txt).length + 5 by omega, if_true,
+    Nat.add_sub_cancel, bind, Except.bind, hsl, hgv, hkt, expSegB]
+  cases hv : (resolve cx.root [⟨V, x, key⟩] p).1.bind (copyValue cx true) with
+  | some t => simp; omega
+  | none =>
+    cases hb : (resolve cx.root [⟨V, x, key⟩] p).2 with
+    | none => simp only [hsrc]; simp; omega
+    | some bd =>
+      by_cases hk0 : bd.key.length = 0
+      · have : bd.key.isEmpty = true := by simpa [List.isEmpty_iff_length_eq_zero] using hk0
+        simp only [hk0, if_true, hsrc, this]; simp; omega
+      · have : bd.key.isEmpty = false := by
+          cases hbk : bd.key with
+          | nil => simp [hbk] at hk0
+          | cons a b => rfl
+        simp only [hk0, if_false, this]; simp; omega
+
+theorem renderRaw_body (cx : RCtx R) (hg : cx.guardIndexRead = true) (st : RState)
+    (B txt p post : List Nat)
+    (hc : cx.content = B ++ (txt ++ (([123, 114, 97, 119, 58] ++ p ++ [125]) ++ post)))
+    (V : List Nat) (lv : Nat) (x : Doc) (key : List Nat) (hp : BodyPathOk V p)
+    (hit : st.items[lv]? = some ⟨some x, key⟩) :
+    renderRawVariable cx st (bodyV V lv ((B ++ txt).length + 5) p) B.length =
+      .ok (emit (emit st txt) (expSegB cx [⟨V, x, key⟩] (.raw p)), (B ++ txt).length + 5 + p.length + 1) := by
+  have h5 : W1.rawVariablePrefixLength = 5 := by decide
+  have h6 : W1.rawVariableFullLength = 6 := by decide
+  have hsl : slice cx.content B.length (B ++ txt).length = .ok txt := by rw [hc]; exact slice_from B txt _
+  have hA : (B ++ txt).length + 5 = (B ++ txt ++ [123, 114, 97, 119, 58]).length := by simp [Nat.add_assoc]
+  have hgk := getValue_body cx hg (emit st txt) (B ++ txt ++ [123, 114, 97, 119, 58]) ([125] ++ post) p
+    (by rw [hc]; simp [List.append_assoc]) V lv x key hp (by simpa [emit] using hit)
+  rw [← hA] at hgk
+  obtain ⟨hgv, _⟩ := hgk
+  have hsrc : slice cx.content (B ++ txt).length ((B ++ txt).length + (p.length + 6)) =
+      .ok (printSeg (.raw p)) := by
+    have := slice_mid (B ++ txt) ([123, 114, 97, 119, 58] ++ p ++ [125]) post
+    rw [hc]
+    simpa [printSeg, List.append_assoc, Nat.add_assoc] using this
+  have hoff : (bodyV V lv ((B ++ txt).length + 5) p).off = (B ++ txt).length + 5 := by
+    simp only [bodyV, mkV]; split <;> rfl
+  have hlen : (bodyV V lv ((B ++ txt).length + 5) p).len = p.length := by
+    simp only [bodyV, mkV]; split <;> rfl
+  simp only [renderRawVariable, subChk, h5, h6, hoff, hlen, show 5 ≤ (B ++ txt).length + 5 by omega, if_true,
+    Nat.add_sub_cancel, bind, Except.bind, hsl, hgv, expSegB]
+  cases hv : (resolve cx.root [⟨V, x, key⟩] p).1.bind (copyValue cx false) with
+  | some t => simp; omega
+  | none => simp only [hsrc]; simp; omega
+
+
+def Seg.pathB (V : List Nat) : Seg → Prop
+  | .var p => BodyPathOk V p
+  | .raw p => BodyPathOk V p
+  | _ => True
+
+/-- rendering the body tags for one loop item -/
+theorem render_body_end (cx : RCtx R) (hg : cx.guardIndexRead = true) (V : List Nat) (lv : Nat) (x : Doc)
+    (key : List Nat) (post : List Nat) :
+    ∀ (body : List Seg) (B txt : List Nat) (st : RState) (fuel : Nat),
+      cx.content = B ++ (txt ++ (printSegs body ++ post)) → (∀ s ∈ body, s.okB) → (∀ s ∈ body, s.pathB V) →
+      st.items[lv]? = some ⟨some x, key⟩ → 1 ≤ fuel →
+      render cx (fuel + nTags body) (tagsOfLB V lv (B ++ txt).length body) B.length
+          ((B ++ txt).length + (printSegs body).length) st =
+        .ok (emit st (txt ++ expSegsB cx [⟨V, x, key⟩] body)) := by
+  intro body
+  induction body with
+  | nil =>
+    intro B txt st fuel hc _ _ _ hf
+    obtain ⟨f, rfl⟩ : ∃ f, fuel = f + 1 := ⟨fuel - 1, by omega⟩
+    have hsl : slice cx.content B.length (B.length + txt.length) = .ok txt := by
+      rw [hc]; exact slice_mid B txt _
+    simp [nTags, tagsOfLB, render, printSegs, hsl, bind, Except.bind, expSegsB]
+  | cons sg rest ih =>
+    intro B txt st fuel hc hok hpath hit hf
+    have hokr : ∀ s ∈ rest, s.okB := fun s hs => hok s (List.mem_cons_of_mem _ hs)
+    have hpr : ∀ s ∈ rest, s.pathB V := fun s hs => hpath s (List.mem_cons_of_mem _ hs)
+    have hsg := hok sg (List.mem_cons_self ..)
+    have hpg := hpath sg (List.mem_cons_self ..)
+    have htag : ∀ (T : Tag R) (X : List Nat) (w : Nat),
+        cx.content = (B ++ txt ++ printSeg sg) ++ ([] ++ (printSegs rest ++ post)) →
+        (B ++ txt ++ printSeg sg).length = w →
+        renderTag cx (fuel + nTags rest) T B.length st = .ok (emit (emit st txt) X, w) →
+        render cx (fuel + nTags rest + 1) (T :: tagsOfLB V lv w rest) B.length
+            (w + (printSegs rest).length) st =
+          .ok (emit st (txt ++ (X ++ expSegsB cx [⟨V, x, key⟩] rest))) := by
+      intro T X w hc' hw hrt
+      have := ih (B ++ txt ++ printSeg sg) [] (emit (emit st txt) X) fuel hc' hokr hpr (by simpa [emit] using hit) hf
+      simp only [render, hrt, bind, Except.bind]
+      rw [← hw]
+      simp only [List.append_nil] at this
+      rw [this]
+      congr 1
+      apply RState.ext' <;> simp [emit, List.append_assoc]
+    cases sg with
+    | text s =>
+      have := ih B (txt ++ s) st fuel (by rw [hc]; simp [printSegs, printSeg, List.append_assoc]) hokr hpr hit hf
+      simp only [tagsOfLB, nTags, printSegs, printSeg, expSegsB, expSegB]
+      rw [show (B ++ txt).length + s.length = (B ++ (txt ++ s)).length by simp [Nat.add_assoc]]
+      rw [show (B ++ txt).length + (s ++ printSegs rest).length = (B ++ (txt ++ s)).length + (printSegs rest).length by
+        simp [Nat.add_assoc]]
+      rw [this]; simp [List.append_assoc]
+    | var p =>
+      simp only [Seg.pathB] at hpg
+      have hv := renderVariable_body cx hg st B txt p (printSegs rest ++ post)
+        (by rw [hc]; simp [printSegs, printSeg, List.append_assoc]) V lv x key hpg hit
+      have hl : (B ++ txt ++ printSeg (.var p)).length = (B ++ txt).length + 5 + p.length + 1 := by
+        simp [printSeg]; omega
+      have := htag (.var (bodyV V lv ((B ++ txt).length + 5) p)) (expSegB cx [⟨V, x, key⟩] (.var p)) _
+        (by rw [hc]; simp [printSegs, List.append_assoc]) hl (by
+          rw [show fuel + nTags rest = (fuel - 1 + nTags rest) + 1 by omega]
+          simp only [renderTag]; exact hv)
+      simp only [tagsOfLB, nTags, printSegs, expSegsB]
+      rw [show (B ++ txt).length + (printSeg (.var p) ++ printSegs rest).length =
+        (B ++ txt).length + 5 + p.length + 1 + (printSegs rest).length by simp [printSeg]; omega]
+      exact this
+    | raw p =>
+      simp only [Seg.pathB] at hpg
+      have hv := renderRaw_body cx hg st B txt p (printSegs rest ++ post)
+        (by rw [hc]; simp [printSegs, printSeg, List.append_assoc]) V lv x key hpg hit
+      have hl : (B ++ txt ++ printSeg (.raw p)).length = (B ++ txt).length + 5 + p.length + 1 := by
+        simp [printSeg]; omega
+      have := htag (.raw (bodyV V lv ((B ++ txt).length + 5) p)) (expSegB cx [⟨V, x, key⟩] (.raw p)) _
+        (by rw [hc]; simp [printSegs, List.append_assoc]) hl (by
+          rw [show fuel + nTags rest = (fuel - 1 + nTags rest) + 1 by omega]
+          simp only [renderTag]; exact hv)
+      simp only [tagsOfLB, nTags, printSegs, expSegsB]
+      rw [show (B ++ txt).length + (printSeg (.raw p) ++ printSegs rest).length =
+        (B ++ txt).length + 5 + p.length + 1 + (printSegs rest).length by simp [printSeg]; omega]
+      exact this
+    | math e => exact absurd hsg (by simp [Seg.okB])
+
+
+/-- the (key, item) pairs a loop runs over: array items have no key -/
+def entsOf : Doc → List (List Nat × Doc)
+  | .arr xs => xs.map (fun x => ([], x))
+  | .obj ms => ms
+  | _ => []
+
+theorem entsOf_length (d : Doc) : (entsOf d).length = d.size := by
+  cases d <;> simp [entsOf, Doc.size]
+
+/-- what the items print: undefined ones nothing, the others `E item key` -/
+def outEnts (E : Doc → List Nat → List Nat) : List (List Nat × Doc) → List Nat
+  | [] => []
+  | (k, v) :: r => (if v.isUndefined then [] else E v k) ++ outEnts E r
+
+/-- the loop item of iteration `idx` -/
+def itemOf (set : Doc) (idx : Nat) (it : LoopItem) : LoopItem :=
+  if set.isObject then
+    match set with
+    | .obj ms => (match ms[idx]? with
+      | some (k, v) => if v.isUndefined then { it with value := none } else { value := some v, key := k }
+      | none => { it with value := none })
+    | _ => it
+  else { value := set.getIdx idx, key := [] }
+
+theorem loopIter_succ (cx : RCtx R) (g : Nat) (sub : List (Tag R)) (f : LoopFields) (set : Doc) (size idx : Nat)
+    (st : RState) :
+    loopIter cx (g + 1) sub f set size idx st =
+      if idx < size then do
+        let it ← itemAt st f.level
+        let st := { st with items := st.items.set f.level (itemOf set idx it) }
+        let st ← (if (itemOf set idx it).value.isSome then render cx g sub (f.off + f.contentOff) f.endOff st else pure st)
+        loopIter cx g sub f set size (idx + 1) st
+      else .ok st := by
+  simp only [loopIter, itemOf]
+  rfl
+
+theorem itemOf_ents (set : Doc) (idx : Nat) (it : LoopItem) (h : idx < (entsOf set).length) :
+    (itemOf set idx it).value = (if (entsOf set)[idx].2.isUndefined then none else some (entsOf set)[idx].2) ∧
+    ((entsOf set)[idx].2.isUndefined = false → (itemOf set idx it).key = (entsOf set)[idx].1) := by
+  cases set with
+  | arr xs =>
+    simp only [entsOf, List.length_map] at h
+    simp only [itemOf, Doc.isObject, Bool.false_eq_true, if_false, Doc.getIdx, List.getElem?_eq_getElem h, entsOf,
+      List.getElem_map]
+    refine ⟨?_, fun _ => trivial⟩
+    by_cases hu : xs[idx].isUndefined = true <;> simp [hu]
+  | obj ms =>
+    simp only [entsOf] at h
+    simp only [itemOf, Doc.isObject, if_true, List.getElem?_eq_getElem h, entsOf]
+    by_cases hu : ms[idx].2.isUndefined = true
+    · simp [hu]
+    · simp [hu]
+  | _ => simp [entsOf] at h
+
+theorem loopIter_ents (cx : RCtx R) (sub : List (Tag R)) (f : LoopFields) (set : Doc)
+    (E : Doc → List Nat → List Nat) (nb : Nat)
+    (hbody : ∀ (x : Doc) (key : List Nat) (st : RState) (g : Nat), st.items[f.level]? = some ⟨some x, key⟩ → 1 ≤ g →
+      render cx (g + nb) sub (f.off + f.contentOff) f.endOff st = .ok (emit st (E x key))) :
+    ∀ (n idx : Nat) (st : RState) (fuel : Nat), idx + n = (entsOf set).length → f.level < st.items.length →
+      n + nb + 1 ≤ fuel →
+      ∃ st', loopIter cx fuel sub f set set.size idx st = .ok st' ∧
+        st'.out = st.out ++ outEnts E ((entsOf set).drop idx) ∧ st'.items.length = st.items.length := by
+  intro n
+  induction n with
+  | zero =>
+    intro idx st fuel hn hl hf
+    obtain ⟨g, rfl⟩ : ∃ g, fuel = g + 1 := ⟨fuel - 1, by omega⟩
+    have : ¬ idx < set.size := by rw [← entsOf_length]; omega
+    refine ⟨st, by simp [loopIter, this], ?_, rfl⟩
+    rw [List.drop_of_length_le (by omega)]; simp [outEnts]
+  | succ n ih =>
+    intro idx st fuel hn hl hf
+    obtain ⟨g, rfl⟩ : ∃ g, fuel = g + 1 := ⟨fuel - 1, by omega⟩
+    have hlt : idx < set.size := by rw [← entsOf_length]; omega
+    have hlt' : idx < (entsOf set).length := by omega
+    obtain ⟨it, hit⟩ : ∃ it, st.items[f.level]? = some it := ⟨st.items[f.level], List.getElem?_eq_getElem hl⟩
+    have hia : itemAt st f.level = .ok it := by simp [itemAt, hit]
+    have hdrop : (entsOf set).drop idx = (entsOf set)[idx] :: (entsOf set).drop (idx + 1) :=
+      List.drop_eq_getElem_cons hlt'
+    obtain ⟨hval, hkey⟩ := itemOf_ents set idx it hlt'
+    generalize hkv : (entsOf set)[idx] = kv at hval hkey
+    obtain ⟨k, v⟩ := kv
+    simp only at hval hkey
+    generalize hit0 : itemOf set idx it = it0 at hval hkey
+    have hset_len : (st.items.set f.level it0).length = st.items.length := by simp
+    have hget : (st.items.set f.level it0)[f.level]? = some it0 := by
+      simp [List.getElem?_set_self hl]
+    rw [hdrop, hkv, loopIter_succ]
+    simp only [hlt, if_true, hia, bind, Except.bind, hit0]
+    cases hu : v.isUndefined
+    · -- an item
+      simp only [hu, Bool.false_eq_true, if_false] at hval
+      have hk := hkey hu
+      have hitem : it0 = ⟨some v, k⟩ := by cases it0; simp_all
+      have hr := hbody v k { st with items := st.items.set f.level it0 } (g - nb) (by show (st.items.set f.level it0)[f.level]? = some ⟨some v, k⟩; rw [hget, hitem]) (by omega)
+      rw [show g - nb + nb = g by omega] at hr
+      simp only [hval, Option.isSome_some, if_true, hr]
+      obtain ⟨st', h1, h2, h3⟩ := ih (idx + 1) (emit { st with items := st.items.set f.level it0 } (E v k)) g
+        (by omega) (by simp [emit]; exact hl) (by omega)
+      refine ⟨st', h1, ?_, ?_⟩
+      · rw [h2]; simp [emit, outEnts, hu, List.append_assoc]
+      · rw [h3]; simp [emit]
+    · simp only [hu, if_true] at hval
+      simp only [hval, Option.isSome_none, Bool.false_eq_true, if_false, pure, Except.pure]
+      obtain ⟨st', h1, h2, h3⟩ := ih (idx + 1) { st with items := st.items.set f.level it0 } g
+        (by omega) (by simp; exact hl) (by omega)
+      refine ⟨st', h1, ?_, ?_⟩
+      · rw [h2]; simp [outEnts, hu]
+      · rw [h3]; simp
+
+
+/-- the pairs the loop over the value of `S` runs over -/
+def loopEnts (cx : RCtx R) (S : List Nat) : List (List Nat × Doc) :=
+  match (resolve cx.root [] S).1 with
+  | some d => entsOf d
+  | none => []
+
+/-- rendering the `Loop` tag of the printed loop -/
+theorem renderLoop_print (cx : RCtx R) (hg : cx.guardIndexRead = true) (B txt S V : List Nat) (body : List Seg)
+    (post : List Nat)
+    (hc : cx.content = B ++ (txt ++ (LH1 ++ (S ++ (LH2 ++ (V ++ (LH3 ++ (printSegs body ++ (LOOPEND ++ post)))))))))
+    (hS : PathOk S) (hb : ∀ s ∈ body, s.okB) (hpb : ∀ s ∈ body, s.pathB V) (st : RState) (fuel : Nat)
+    (hf : (loopEnts cx S).length + nTags body + 3 ≤ fuel) :
+    ∃ st', renderTag cx fuel
+        (.loop (tagsOfLB V 0 ((B ++ txt).length + 22 + S.length + V.length) body)
+          { loopF (B ++ txt).length 0 S V with
+            endOff := (B ++ txt).length + 22 + S.length + V.length + (printSegs body).length }) B.length st =
+        .ok (st', (B ++ txt).length + 22 + S.length + V.length + (printSegs body).length + 7) ∧
+      st'.out = st.out ++ (txt ++ outEnts (fun x key => expSegsB cx [⟨V, x, key⟩] body) (loopEnts cx S)) := by
+  obtain ⟨g, rfl⟩ : ∃ g, fuel = g + 1 := ⟨fuel - 1, by omega⟩
+  have hsl : slice cx.content B.length (B ++ txt).length = .ok txt := by rw [hc]; exact slice_from B txt _
+  have hSl : 0 < S.length := by
+    obtain ⟨name, keys, rfl, hne, _, _⟩ := hS
+    have := List.length_pos_iff.mpr hne
+    simp; omega
+  have hA : (B ++ txt ++ LH1).length = (B ++ txt).length + 11 := by simp [LH1]; omega
+  have hgv : getValue cx (emit st txt) ⟨(B ++ txt).length + 11, S.length, 0, 0⟩ = .ok (resolve cx.root [] S).1 := by
+    rw [← hA]
+    exact getValue_path cx hg _ (B ++ txt ++ LH1) (LH2 ++ (V ++ (LH3 ++ (printSegs body ++ (LOOPEND ++ post))))) S
+      (by rw [hc]; simp [List.append_assoc]) hS
+  have h7 : W1.loopSuffixLength = 7 := by decide
+  simp only [renderTag, loopF, hsl, bind, Except.bind, show S.length ≠ 0 by omega, ne_eq, not_false_eq_true, if_true,
+    hgv, h7]
+  cases hres : (resolve cx.root [] S).1 with
+  | none =>
+    refine ⟨emit st txt, rfl, ?_⟩
+    simp [emit, loopEnts, hres, outEnts]
+  | some set0 =>
+    simp only [not_true_eq_false, if_false, pure, Except.pure, show ¬ ((0 : Nat) > 1) by omega]
+    -- the body for one item
+    have hcb : cx.content = (B ++ txt ++ LH1 ++ S ++ LH2 ++ V ++ LH3) ++ ([] ++ (printSegs body ++ (LOOPEND ++ post))) := by
+      rw [hc]; simp [List.append_assoc]
+    have hlb : (B ++ txt ++ LH1 ++ S ++ LH2 ++ V ++ LH3).length = (B ++ txt).length + 22 + S.length + V.length := by
+      simp [LH1, LH2, LH3]; omega
+    have hbody : ∀ (x : Doc) (key : List Nat) (s1 : RState) (k : Nat), s1.items[(0 : Nat)]? = some ⟨some x, key⟩ → 1 ≤ k →
+        render cx (k + nTags body) (tagsOfLB V 0 ((B ++ txt).length + 22 + S.length + V.length) body)
+          ((B ++ txt).length + (22 + S.length + V.length))
+          ((B ++ txt).length + 22 + S.length + V.length + (printSegs body).length) s1 =
+        .ok (emit s1 (expSegsB cx [⟨V, x, key⟩] body)) := by
+      intro x key s1 k h1 hk
+      have := render_body_end cx hg V 0 x key (LOOPEND ++ post) body (B ++ txt ++ LH1 ++ S ++ LH2 ++ V ++ LH3) [] s1 k
+        hcb hb hpb h1 hk
+      simp only [List.append_nil, hlb, List.nil_append] at this
+      rw [show (B ++ txt).length + (22 + S.length + V.length) = (B ++ txt).length + 22 + S.length + V.length by omega]
+      exact this
+    have hents : loopEnts cx S = entsOf set0 := by simp [loopEnts, hres]
+    obtain ⟨st', h1, h2, _⟩ := loopIter_ents cx (tagsOfLB V 0 ((B ++ txt).length + 22 + S.length + V.length) body)
+      { set := ⟨(B ++ txt).length + 11, S.length, 0, 0⟩, off := (B ++ txt).length,
+        endOff := (B ++ txt).length + 22 + S.length + V.length + (printSegs body).length,
+        contentOff := 22 + S.length + V.length, valueOff := 20 + S.length, valueLen := V.length, level := 0 }
+      set0 (fun x key => expSegsB cx [⟨V, x, key⟩] body) (nTags body) hbody (entsOf set0).length 0
+      ⟨(emit st txt).out, (emit st txt).items ++ List.replicate (0 + 1 - (emit st txt).items.length) ({} : LoopItem)⟩
+      g (by omega) (by simp; omega) (by rw [← hents]; omega)
+    refine ⟨st', ?_, ?_⟩
+    · simp only [h1]
+    · rw [h2, hents]; simp [emit, List.append_assoc]
+
+
+/-- what the document says the loop prints -/
+def expLoop (cx : RCtx R) (S V : List Nat) (body : List Seg) : List Nat :=
+  outEnts (fun x key => expSegsB cx [⟨V, x, key⟩] body) (loopEnts cx S)
+
+theorem renderTop_loopT (cx : RCtx R) (cfg : ScanCfg R) (hg : cx.guardIndexRead = true)
+    (hrn : cfg.readNum = cx.readNum) (segs0 : List Seg) (S V : List Nat) (body segs1 : List Seg)
+    (hc : cx.content = printLoopT segs0 S V body segs1)
+    (h0 : ∀ s ∈ segs0, s.ok) (hp0 : ∀ s ∈ segs0, s.pathOk cfg.readNum)
+    (h1 : ∀ s ∈ segs1, s.ok) (hp1 : ∀ s ∈ segs1, s.pathOk cfg.readNum)
+    (hS : PathOk S) (hb : ∀ s ∈ body, s.okB) (hpb : ∀ s ∈ body, s.pathB V) (fuel : Nat) :
+    renderTop cx (tagsLoopT cfg cx.content segs0 S V body segs1)
+        ((loopEnts cx S).length + nTags body + nTags segs1 + 5 + fuel + nTags segs0) =
+      .ok (expSegs cx segs0 ++ (expLoop cx S V body ++ expSegs cx segs1)) := by
+  simp only [printLoopT] at hc
+  have hc0 : cx.content = ([] : List Nat) ++ ([] ++ (printSegs segs0 ++
+      (LH1 ++ (S ++ (LH2 ++ (V ++ (LH3 ++ (printSegs body ++ (LOOPEND ++ printSegs segs1))))))))) := by
+    rw [hc]; rfl
+  obtain ⟨B2, txt2, st2, e1, e2, e3, e4, e5⟩ := render_segs_more cx cfg hg hrn
+    (.loop (tagsOfLB V 0 ((printSegs segs0).length + 22 + S.length + V.length) body)
+      { loopF (printSegs segs0).length 0 S V with
+        endOff := (printSegs segs0).length + 22 + S.length + V.length + (printSegs body).length } ::
+      tagsOf cfg cx.content ((printSegs segs0).length + 22 + S.length + V.length + (printSegs body).length + 7) segs1)
+    cx.content.length _ segs0 [] [] {} ((loopEnts cx S).length + nTags body + nTags segs1 + 5 + fuel) hc0 hp0 h0 (by omega)
+  simp only [List.append_nil, List.length_nil, Nat.zero_add, List.nil_append] at e2 e3 e5
+  have hL : (B2 ++ txt2).length = (printSegs segs0).length := e2
+  -- the loop tag
+  obtain ⟨st3, r1, r2⟩ := renderLoop_print cx hg B2 txt2 S V body (printSegs segs1) e1 hS hb hpb st2
+    ((loopEnts cx S).length + nTags body + nTags segs1 + 4 + fuel) (by omega)
+  rw [hL] at r1
+  -- the segments after it
+  have hc5 : cx.content = (printSegs segs0 ++ (LH1 ++ (S ++ (LH2 ++ (V ++ (LH3 ++ (printSegs body ++ LOOPEND))))))) ++
+      ([] ++ (printSegs segs1 ++ [])) := by
+    rw [hc]; simp [List.append_assoc]
+  have hl5 : (printSegs segs0 ++ (LH1 ++ (S ++ (LH2 ++ (V ++ (LH3 ++ (printSegs body ++ LOOPEND))))))).length =
+      (printSegs segs0).length + 22 + S.length + V.length + (printSegs body).length + 7 := by
+    simp [LH1, LH2, LH3, LOOPEND]; omega
+  have hend := render_segs_end cx cfg hg hrn [] segs1 _ [] st3
+    ((loopEnts cx S).length + nTags body + 4 + fuel) hc5 hp1 h1 (by omega)
+  simp only [List.append_nil, hl5, List.nil_append] at hend
+  have hclen : cx.content.length = (printSegs segs0).length + 22 + S.length + V.length + (printSegs body).length + 7 +
+      (printSegs segs1).length := by
+    rw [hc]; simp [LH1, LH2, LH3, LOOPEND]; omega
+  rw [← hclen] at hend
+  have hfu : (loopEnts cx S).length + nTags body + nTags segs1 + 5 + fuel =
+      ((loopEnts cx S).length + nTags body + nTags segs1 + 4 + fuel) + 1 := by omega
+  have hfu2 : (loopEnts cx S).length + nTags body + nTags segs1 + 4 + fuel =
+      (loopEnts cx S).length + nTags body + 4 + fuel + nTags segs1 := by omega
+  have htl : tagsLoopT cfg cx.content segs0 S V body segs1 =
+      tagsOf cfg cx.content 0 segs0 ++
+        (.loop (tagsOfLB V 0 ((printSegs segs0).length + 22 + S.length + V.length) body)
+          { loopF (printSegs segs0).length 0 S V with
+            endOff := (printSegs segs0).length + 22 + S.length + V.length + (printSegs body).length } ::
+        tagsOf cfg cx.content ((printSegs segs0).length + 22 + S.length + V.length + (printSegs body).length + 7) segs1) := by
+    simp [tagsLoopT, List.append_assoc]
+  simp only [renderTop, htl, e5, bind, Except.bind]
+  rw [hfu]
+  simp only [render, r1, bind, Except.bind]
+  rw [hfu2, hend]
+  simp only [emit, r2]
+  rw [← List.append_assoc st2.out, e3]
+  simp [List.append_assoc, expLoop]
+
+
+/-! ### the reference interpreter on the loop -/
+
+theorem expandList_body (cx : RCtx R) (sc : List Binding) :
+    ∀ (segs : List Seg) (fuel : Nat), segs.length + 1 ≤ fuel →
+      expandList (specOf cx) fuel sc (segsTpl segs) = expSegsB cx sc segs := by
+  intro segs
+  induction segs with
+  | nil => intro fuel _; cases fuel <;> simp [expandList, segsTpl, expSegsB]
+  | cons sg rest ih =>
+    intro fuel hf
+    cases fuel with
+    | zero => omega
+    | succ f =>
+      cases f with
+      | zero => simp at hf
+      | succ g =>
+        simp only [segsTpl, expandList, expSegsB]
+        rw [ih (g + 1) (by simp at hf ⊢; omega)]
+        congr 1
+        cases sg with
+        | text s => simp [Seg.toTpl, expandTpl, expSegB]
+        | var p =>
+          simp only [Seg.toTpl, expandTpl, expSegB, show (specOf cx).root = cx.root from rfl]
+          rw [show printable (specOf cx) true = copyValue cx true from funext (printable_eq cx true)]
+          cases hv : (resolve cx.root sc p).1.bind (copyValue cx true) with
+          | some t => simp
+          | none =>
+            simp only [escapeS, show (specOf cx).autoEscape = cx.autoEscape from rfl]
+            cases hb : (resolve cx.root sc p).2 with
+            | none => simp [printTpl, printSeg, str]
+            | some bd => simp [printTpl, printSeg, str]
+        | raw p =>
+          simp only [Seg.toTpl, expandTpl, expSegB, show (specOf cx).root = cx.root from rfl]
+          rw [show printable (specOf cx) false = copyValue cx false from funext (printable_eq cx false)]
+          cases hv : (resolve cx.root sc p).1.bind (copyValue cx false) with
+          | some t => simp
+          | none => simp [printTpl, printSeg, str]
+        | math e =>
+          simp only [Seg.toTpl, expandTpl, expSegB]
+          cases hv : (evalText (specOf cx) sc e).bind (numText (specOf cx)) with
+          | some t => rfl
+          | none => simp [printTpl, printSeg, str]
+
+theorem loopArr_ents (cx : RCtx R) (V : List Nat) (body : List Seg) :
+    ∀ (xs : List Doc) (fuel : Nat), xs.length + body.length + 2 ≤ fuel →
+      loopArr (specOf cx) fuel [] V (segsTpl body) xs =
+        outEnts (fun x key => expSegsB cx [⟨V, x, key⟩] body) (xs.map (fun x => ([], x))) := by
+  intro xs
+  induction xs with
+  | nil => intro fuel _; cases fuel <;> simp [loopArr, outEnts]
+  | cons x xs ih =>
+    intro fuel hf
+    obtain ⟨g, rfl⟩ : ∃ g, fuel = g + 1 := ⟨fuel - 1, by omega⟩
+    simp only [loopArr, List.map_cons, outEnts]
+    rw [ih g (by simp at hf; omega), expandList_body cx _ body g (by simp at hf; omega)]
+
+theorem loopObj_ents (cx : RCtx R) (V : List Nat) (body : List Seg) :
+    ∀ (ms : List (List Nat × Doc)) (fuel : Nat), ms.length + body.length + 2 ≤ fuel →
+      loopObj (specOf cx) fuel [] V (segsTpl body) ms =
+        outEnts (fun x key => expSegsB cx [⟨V, x, key⟩] body) ms := by
+  intro ms
+  induction ms with
+  | nil => intro fuel _; cases fuel <;> simp [loopObj, outEnts]
+  | cons kx ms ih =>
+    obtain ⟨k, x⟩ := kx
+    intro fuel hf
+    obtain ⟨g, rfl⟩ : ∃ g, fuel = g + 1 := ⟨fuel - 1, by omega⟩
+    simp only [loopObj, outEnts]
+    rw [ih g (by simp at hf; omega), expandList_body cx _ body g (by simp at hf; omega)]
+
+/-- the template -/
+def loopTpl (segs0 : List Seg) (S V : List Nat) (body segs1 : List Seg) : List Tpl :=
+  segsTpl segs0 ++ (.loop S V (segsTpl body) :: segsTpl segs1)
+
+theorem printLoopT_eq (segs0 : List Seg) (S V : List Nat) (body segs1 : List Seg) (hS : S ≠ []) :
+    printList (loopTpl segs0 S V body segs1) = printLoopT segs0 S V body segs1 := by
+  have happ : ∀ (a b : List Tpl), printList (a ++ b) = printList a ++ printList b := by
+    intro a b
+    induction a with
+    | nil => simp [printList]
+    | cons t a ih => simp [printList, ih, List.append_assoc]
+  have hne : S.isEmpty = false := by cases S <;> simp_all
+  simp only [loopTpl, happ, printList, printTpl, printSegs_eq, printLoopT, hne, Bool.false_eq_true, if_false]
+  simp [str, LH1, LH2, LH3, LOOPEND, List.append_assoc]
+
+theorem expand_loopT (cx : RCtx R) (segs0 : List Seg) (S V : List Nat) (body segs1 : List Seg) (hS : S ≠ [])
+    (fuel : Nat) :
+    expandList (specOf cx) (segs0.length + segs1.length + (loopEnts cx S).length + body.length + 4 + fuel) []
+        (loopTpl segs0 S V body segs1) =
+      expSegs cx segs0 ++ (expLoop cx S V body ++ expSegs cx segs1) := by
+  have hne : S.isEmpty = false := by cases S <;> simp_all
+  rw [loopTpl, expandList_segs_app cx segs0 _ _ (by omega)]
+  congr 1
+  rw [show segs0.length + segs1.length + (loopEnts cx S).length + body.length + 4 + fuel - segs0.length =
+    (segs1.length + (loopEnts cx S).length + body.length + 2 + fuel) + 1 + 1 by omega]
+  simp only [expandList, expandTpl, hne, Bool.false_eq_true, if_false, show (specOf cx).root = cx.root from rfl]
+  rw [expandList_segs cx (specOf cx) ⟨rfl, rfl, rfl, rfl, rfl, rfl⟩ segs1 _ (by omega)]
+  congr 1
+  simp only [expLoop, loopEnts]
+  cases hres : (resolve cx.root [] S).1 with
+  | none => simp [outEnts]
+  | some d =>
+    cases d with
+    | arr xs =>
+      simp only [entsOf]
+      exact loopArr_ents cx V body xs _ (by first | omega | (simp; omega))
+    | obj ms =>
+      simp only [entsOf]
+      exact loopObj_ents cx V body ms _ (by first | omega | (simp; omega))
+    | _ => simp [entsOf, outEnts]
+
+
+end
+
 end Qentem.Tmpl
